@@ -386,6 +386,14 @@ func aeEnumerate(s *Shard, prop string, fn func(c *Case)) {
 						if spec.Fn != "thresholds" {
 							cfg.Ranges = si%2 == 0
 							cfg.Extra = si%3 == 0
+							if si%4 == 1 {
+								// first criterion strictly negative for every known alternative, range observed
+								nv := make([][]float64, len(vals))
+								for i := range vals {
+									nv[i] = append([]float64{vals[i][0] - 3}, vals[i][1:]...)
+								}
+								cfg.Vals, cfg.Ranges, cfg.Extra = nv, false, false
+							}
 						}
 						fn(&Case{Prop: prop, Kind: "aspect", Req: aeRequest(cfg)})
 						if g.n >= 2 && g.n <= 3 && g.m == 2 && si%4 == 0 {
